@@ -18,10 +18,12 @@
                  the implementation's projection P has orthonormal columns and ATTAINS sum(sg) = <P, Z>.
    * CPReport  : the error parafac reports for an iterate: the model's | ||X||^2 + cp_norm^2 - 2 iprod | equals the exact squared error
                  (instance of C07_cp_reported_is_sqerr, exactly) and is (reported relative error * ||X||)^2 up to rounding.
+   * Modes     : the modes updated by the first sweep of parafac / non_negative_parafac_hals == the model's reading of fixed_modes.
+   * TkSweep   : a whole HOOI sweep block by block + the error reported for it (multi-step).
    * Norm      : cp_normalize on states of normalize_factors runs (and states with an all-zero column): model == implementation,
                  squared error exactly unchanged by the model's normalisation. *)
 From Coq Require Import List Arith ZArith QArith Qabs Bool.
-From TLV Require Import Base.Shape Base.PyList Base.Tensor Base.Ops Model.Descent Model.DescentReport Corr.Common.
+From TLV Require Import Base.Shape Base.PyList Base.Tensor Base.Ops Model.Descent Model.DescentReport Model.DescentModes Corr.Common.
 Import ListNotations.
 
 Definition qmat := list (list Q).
@@ -308,13 +310,45 @@ Definition rep_agree (c : repcase) : bool :=
   Qeq_bool rep sq &&
   qle (Qabs (Qred (Qred (e_rel c * e_rel c) * normX2) - sq)) (tol_cert * normX2 + tol_cert * sq).
 
+(* a WHOLE HOOI sweep (multi-step): the factor lists before the sweep and after each of its blocks (identity on undecomposed modes) and the
+   error partial_tucker reported for this sweep: the exact Tucker objective does not increase at ANY block of the sweep (instance of
+   C07_hooi_sweep_descent), the factors after the sweep have orthonormal columns, and the reported error is the model's
+   sqrt(| ||X||^2 - ||core||^2 |) / ||X|| of the state after the sweep (C07_hooi_reported_monotone speaks about it), which is its objective *)
+Record tksweepcase := mkTs { ts_X : tensor Q; ts_rs : list nat; ts_states : list (list qmat); ts_rel : Q }.
+Fixpoint nonincreasing_tol (slack : Q) (l : list Q) : bool :=
+  match l with
+  | a :: ((b :: _) as rest) => qle b (a + slack) && nonincreasing_tol slack rest
+  | _ => true
+  end.
+Definition tksweep_agree (c : tksweepcase) : bool :=
+  let X := ts_X c in let rs := ts_rs c in
+  let normX2 := gsum Qops (prod (shape X)) (fun o => Qred (nth o (data X) 0 * nth o (data X) 0)) in
+  let objs := map (fun Us => tk_hooi_obj Qops X rs Us) (ts_states c) in
+  let final := last (ts_states c) [] in
+  let rep2 := Qred (Qred (ts_rel c * ts_rel c) * normX2) in
+  Nat.leb 2 (length (ts_states c)) &&
+  nonincreasing_tol (tol_cert * normX2) objs &&
+  orth_defect_ok (shape X) rs final &&
+  qle (Qabs (rep2 - Qabs (normX2 - tk_core_norm2 Qops X rs final))) (tol_cert * normX2) &&
+  qle (Qabs (rep2 - last objs 0)) (tol_cert * normX2 + tol_cert * normX2).
+
+(* option parsing of `fixed_modes` (parafac / non_negative_parafac_hals): the modes updated by the implementation's first sweep, in order,
+   are the model's list; with all modes fixed parafac returns its initialisation without a sweep *)
+Fixpoint natl_eqb (a b : list nat) : bool :=
+  match a, b with [] , [] => true | x :: a', y :: b' => Nat.eqb x y && natl_eqb a' b' | _, _ => false end.
+Record modescase := mkMd { md_n : nat; md_fixed : list nat; md_is_nn : bool; md_observed : list nat }.
+Definition modes_agree (c : modescase) : bool :=
+  let expected := if md_is_nn c then nn_modes_list (md_n c) (md_fixed c)
+                  else if cp_all_fixed (md_n c) (md_fixed c) then [] else cp_modes_list (md_n c) (md_fixed c) in
+  natl_eqb (md_observed c) expected.
+
 Inductive body := CPBlock (c : cpcase) | Hals (c : halscase) | LSBlock (c : lscase) | Norm (c : normcase) | RegBlock (c : regcase)
                 | TkBlock (c : tkcase) | CmtfBlock (c : cmtfcase) | TkRegBlock (c : tkregcase) | TRBlock (c : trcase)
-                | SpecCert (c : speccase) | ProcCert (c : proccase) | CPReport (c : repcase).
+                | SpecCert (c : speccase) | ProcCert (c : proccase) | CPReport (c : repcase) | TkSweep (c : tksweepcase) | Modes (c : modescase).
 Definition case := (nat * body)%type.
 Definition agree (c : case) : bool :=
   match snd c with CPBlock b => cp_agree b | Hals b => hals_agree b | LSBlock b => ls_agree b | Norm b => norm_agree b | RegBlock b => reg_agree b
   | TkBlock b => tk_agree b | CmtfBlock b => cmtf_agree b | TkRegBlock b => tkreg_agree b | TRBlock b => tr_agree b
-  | SpecCert b => spec_agree b | ProcCert b => proc_agree b | CPReport b => rep_agree b end.
+  | SpecCert b => spec_agree b | ProcCert b => proc_agree b | CPReport b => rep_agree b | TkSweep b => tksweep_agree b | Modes b => modes_agree b end.
 Definition ident (c : case) : nat := fst c.
 Definition failing := failing_ids agree ident.
